@@ -238,13 +238,16 @@ DoNEWLINE(cps, st) ==
         text == SubSeq(cps, i, e - 1)
         semi == cps[i] = cSEMI
         returned == semi \/ st.paren = 0
+        \* lexer.lineno counts every physical line break, also inside brackets, and never ';'
+        \* (since repo commit "fix: syntax-error messages report the physical line ..."; before it the counter
+        \* advanced exactly when a NEWLINE token was returned)
         st1 == [st EXCEPT !.pos = e - 1,
                           !.nnl = IF semi THEN @ ELSE @ + 1,
+                          !.lineno = IF semi THEN @ ELSE @ + 1,
                           !.semis = IF semi THEN @ + 1 ELSE @]
     IN IF returned
-       THEN [st1 EXCEPT !.lineno = @ + 1,
-                        !.toks = Append(@, MkTok(st, "NEWLINE", text, text, e - 1, st.paren))]
-       ELSE st1          \* ignored inside brackets: no token, lineno NOT advanced
+       THEN [st1 EXCEPT !.toks = Append(@, MkTok(st, "NEWLINE", text, text, e - 1, st.paren))]
+       ELSE st1          \* ignored inside brackets: no token
 
 DoBracket(cps, st) ==
     LET i == st.pos + 1
@@ -332,6 +335,6 @@ NamesOf(toks) == LET F[i \in 0..Len(toks)] ==
 ListNames(cps) == LET lx == Lex(cps) IN [names |-> NamesOf(lx.toks), err |-> lx.err, errch |-> lx.errch]
 
 (* lexer.lineno right after token tk has been returned *)
-LinenoAfter(tk) == tk.ilineno + (IF tk.type = "NEWLINE" THEN 1 ELSE 0)
+LinenoAfter(tk) == tk.ilineno + (IF tk.type = "NEWLINE" /\ tk.text # <<59>> THEN 1 ELSE 0)
 
 =============================================================================
